@@ -289,6 +289,14 @@ def tr_roles(ctx):
                 out.append(bad('TR-roles', key, 'a thread that does not own the queue moves it to %s: nothing is suspended, so no waker will ever resume the queue and everything queued on it is stranded' % s2, fn=fname))
     if n < 3:
         out.append(undecided('TR-roles', 'floor', 'found %d parking transitions, expected at least 3' % n))
+    # ... and a runner parks the queue only because a job has just answered Pending (there is a suspended job whose waker will resume it)
+    for fname, _, snaps in events_of(ctx.proto, 'park_write'):
+        for (s, s2, susp) in sorted(snaps):
+            key = '%s|%s->%s|after-Pending' % (short(fname), s, s2)
+            if susp:
+                out.append(ok('TR-roles', key, 'parked after a job returned Poll::Pending', fn=fname))
+            else:
+                out.append(bad('TR-roles', key, 'the runner parks the queue in %s on a path where no job has answered Pending: no waker exists that would resume it, everything queued on it is stranded' % s2, fn=fname))
     return out
 
 
